@@ -15,6 +15,7 @@ from . import keys as keypool
 KEYLEN = {2: 24, 3: 16, 4: 16, 7: 16, 8: 24, 9: 32, 11: 16, 12: 24, 13: 32}
 BLOCK = {2: 8, 3: 8, 4: 8, 7: 16, 8: 16, 9: 16, 11: 16, 12: 16, 13: 16}
 CIPHERS = sorted(KEYLEN)
+REFUSED = {0: [], 1: [8, 8], 10: [16, 8]}     # protect with Plaintext / IDEA / Twofish256 raises; sizes of what was drawn before it did
 
 
 def _cipher(alg, key, iv):
@@ -138,10 +139,10 @@ def source_digests():
 PINNED = {
     'SymmetricKeyAlgorithm.gen_iv': 'd3393f115bdc',
     'SymmetricKeyAlgorithm.gen_key': 'f5c6f11099e3',
-    'SKESessionKeyV4.encrypt_sk': 'cd6d3ea21bc6',
+    'SKESessionKeyV4.encrypt_sk': 'b931304baacf',     # 29ef9ad: length guard on the supplied session key BEFORE the salt is drawn (sk_fits)
     'PKESessionKeyV3.encrypt_sk': '170b82b3f592',
     'IntegrityProtectedSKEDataV1.encrypt': '4df5ab8ae793',
-    'PrivKey.encrypt_keyblob': 'e41ff31c90df',
+    'PrivKey.encrypt_keyblob': 'b02856ec5aa4',        # a3ce830: IV / salt drawn into a String2Key built on the side; same calls, order, sizes
     'ECDHCipherText.encrypt': '74f84571eafe',
     'PGPMessage.encrypt': '9fd8589aa954',
     'PGPKey.encrypt': '0bde8025c099',
@@ -183,27 +184,31 @@ class Seq:
                         key = pgpy.PGPKey.from_blob(bytes(key))[0]
                 o['_key'] = key
             with Source() as src:
-                if o['op'] == 'EP':
-                    out = msg.encrypt(o['pw'], cipher=SymmetricKeyAlgorithm(c), sessionkey=sk)
-                    res = bytes(out)
-                elif o['op'] == 'EK':
-                    out = keys[o['rcpt']].pubkey.encrypt(msg, cipher=SymmetricKeyAlgorithm(c), sessionkey=sk)
-                    res = bytes(out)
-                else:
-                    key = o.get('_key')
-                    h = HashAlgorithm(o['halg'])
-                    old = h._tuned_count
-                    h._tuned_count = o['count']
-                    try:
-                        if o.get('reprotect'):
-                            with key.unlock('old passphrase'):
+                # an operation that raises is an outcome (res None, out = the exception name), never a harness crash
+                try:
+                    if o['op'] == 'EP':
+                        out = msg.encrypt(o['pw'], cipher=SymmetricKeyAlgorithm(c), sessionkey=sk)
+                        res = bytes(out)
+                    elif o['op'] == 'EK':
+                        out = keys[o['rcpt']].pubkey.encrypt(msg, cipher=SymmetricKeyAlgorithm(c), sessionkey=sk)
+                        res = bytes(out)
+                    else:
+                        key = o.get('_key')
+                        h = HashAlgorithm(o['halg'])
+                        old = h._tuned_count
+                        h._tuned_count = o['count']
+                        try:
+                            if o.get('reprotect'):
+                                with key.unlock('old passphrase'):
+                                    key.protect(o['pw'], SymmetricKeyAlgorithm(c), h)
+                            else:
                                 key.protect(o['pw'], SymmetricKeyAlgorithm(c), h)
-                        else:
-                            key.protect(o['pw'], SymmetricKeyAlgorithm(c), h)
-                    finally:
-                        h._tuned_count = old
-                    res = bytes(key)
-                    out = key
+                        finally:
+                            h._tuned_count = old
+                        res = bytes(key)
+                        out = key
+                except Exception as ex:
+                    res, out = None, type(ex).__name__
         o.pop('_key', None)
         return src.draws, res, out
 
@@ -217,37 +222,72 @@ class Seq:
         return 'PR,%s,%d,%s' % (hn(c), 1 + len(keypool.SPECS[o['rcpt']][2]), hx(o['pw'].encode()))
 
     def run(self, ops, keys):
+        """guarded: an exception where the harness does not expect one (e.g. an output that is not a packet sequence) is a recorded
+        failing case, never a harness crash"""
+        try:
+            return self._run(ops, keys)
+        except Exception as ex:
+            self.ctx.fail(self.suite, 'sequence could not be followed: %s' % type(ex).__name__,
+                          {'ops': [{k: v for k, v in o.items() if k != '_key'} for o in ops], 'error': repr(ex)[:300]})
+            return False
+
+    def _run(self, ops, keys):
         ctx, st = self.ctx, self.state
         case = {'ops': ops}
         start = st['n']
         ans = self.d.call('trace', start, ';'.join(self.model_op(o, keys) for o in ops)).split(';')
         ok = True
         for o, m in zip(ops, ans[:-1]):
-            mtrace, mexposed, mgiven = m.split('|')
+            mtrace, mexposed, mgiven, mouts = m.split('|')
             draws, res, obj = self.impl_op(o, keys)
+            raised = res is None
             itrace = ','.join('%s:%s:%d' % (p, hn(sz), st['n'] + i) for i, (p, sz, v, pub) in enumerate(draws)) or '-'
             cells = {st['n'] + i: dr for i, dr in enumerate(draws)}
             st['n'] += len(draws)
+            c = o['cipher']
+            # refusals straight from the repaired code's contract (not via the model): a supplied session key of the wrong length
+            # is refused before anything is drawn (29ef9ad); a protect with a cipher PGPy cannot encrypt with raises
+            if o['op'] in ('EP', 'EK') and o.get('sk') and len(bytes.fromhex(o['sk'])) != KEYLEN[c]:
+                if not raised:
+                    ctx.fail(self.suite, 'supplied session key of the wrong length accepted', dict(case, op=o)); ok = False
+                if draws:
+                    ctx.fail(self.suite, 'a refused encryption drew randomness', dict(case, op=o, sizes=[d_[1] for d_ in draws])); ok = False
+            elif o['op'] == 'PR' and c in REFUSED:
+                if not raised:
+                    ctx.fail(self.suite, 'protect with a cipher PGPy cannot encrypt with did not raise', dict(case, op=o)); ok = False
+                if [d_[1] for d_ in draws] != REFUSED[c]:
+                    ctx.fail(self.suite, 'draws of a refused protect', dict(case, op=o, sizes=[d_[1] for d_ in draws], want=REFUSED[c])); ok = False
+            elif raised:
+                ctx.fail(self.suite, 'operation raised %s' % obj, dict(case, op=o)); ok = False
             if itrace != mtrace:
                 ctx.fail(self.suite, 'draws of the operation (purpose:size:position) differ from the model trace',
                          dict(case, op=o, impl=itrace, model=mtrace))
                 return False
+            # carried out or refused: the model has an output exactly when the implementation does not raise
+            if raised != (mouts == '0'):
+                ctx.fail(self.suite, 'operation %s, the model says it %s' % ('raised ' + str(obj) if raised else 'was carried out',
+                                                                            'is refused' if mouts == '0' else 'is carried out'),
+                         dict(case, op=o)); ok = False
             # sizes straight from the property statement (not via the model)
             c = o['cipher']
             for p, sz, v, pub in draws:
-                want = {'K': KEYLEN[c], 'P': BLOCK[c], 'I': BLOCK[c], 'S': 8}.get(p)
+                want = {'K': KEYLEN.get(c), 'P': BLOCK.get(c), 'I': BLOCK.get(c, {1: 8, 10: 16}.get(c)), 'S': 8}.get(p)
                 if want is not None and sz != want:
                     ctx.fail(self.suite, 'draw of the wrong size', dict(case, op=o, purpose=p, size=sz, want=want)); ok = False
             # exposure: a drawn value occurs in the output in the clear iff the model says its cell is exposed
             exp = set(int(x) for x in mexposed.split(',')) if mexposed != '-' else set()
             for cell, (p, sz, v, pub) in cells.items():
+                if raised:
+                    break           # no output to look into (the model exposes nothing either: mexposed is '-')
                 if (v in res) != (cell in exp):
                     ctx.fail(self.suite, 'drawn value %s in the output, model says %s' % ('occurs' if v in res else 'does not occur',
                                                                                            'exposed' if cell in exp else 'hidden'),
                              dict(case, op=o, purpose=p)); ok = False
                 if p in ('K', 'P', 'E') and v in res:
                     ctx.fail(self.suite, 'secret random value in the clear in the output', dict(case, op=o, purpose=p)); ok = False
-            if o.get('sk') and bytes.fromhex(o['sk']) in res:
+            if raised and mexposed != '-':
+                ctx.fail(self.suite, 'model exposes cells of an operation without output', dict(case, op=o)); ok = False
+            if not raised and o.get('sk') and bytes.fromhex(o['sk']) in res:
                 ctx.fail(self.suite, 'supplied session key in the clear in the output', dict(case, op=o)); ok = False
             if mgiven != '-':
                 ctx.fail(self.suite, 'model exposes the supplied key', dict(case, op=o)); ok = False
@@ -264,6 +304,8 @@ class Seq:
                     st['seen'][v] = o['op'] + ':' + p
                 if len(set(v)) == 1 and sz >= 8:
                     ctx.fail(self.suite, 'constant random value', dict(case, op=o, purpose=p)); ok = False
+            if raised:
+                continue
             ok = self.placement(o, draws, res, obj, case) and ok
             if res in st['outputs']:
                 ctx.fail(self.suite, 'two operations produced identical output', dict(case, op=o)); ok = False
@@ -339,6 +381,8 @@ def gen_ops(rng, rcpts, n, text=None):
         c = rng.choice(CIPHERS)
         msg = text or ''.join(rng.choice('abcdefghij \n') for _ in range(rng.randrange(1, 200)))
         sk = bytes(rng.randrange(256) for _ in range(KEYLEN[c])).hex() if rng.random() < 0.25 else None
+        if sk and rng.random() < 0.2:       # a supplied session key of the wrong length: refused, nothing drawn
+            sk = sk[:-2] if rng.random() < 0.5 else sk + '%02x' % rng.randrange(256)
         if ops and rng.random() < 0.25:
             ops.append(dict(ops[-1]))                  # the identical operation again
         elif r < 0.35:
@@ -346,8 +390,8 @@ def gen_ops(rng, rcpts, n, text=None):
         elif r < 0.8:
             ops.append({'op': 'EK', 'cipher': c, 'rcpt': rng.choice(rcpts), 'msg': msg, 'sk': sk, 'enc': False})
         else:
-            ops.append({'op': 'PR', 'cipher': c, 'rcpt': rng.choice(rcpts + ['dsa2048']), 'pw': 'pw', 'halg': rng.choice([2, 8, 10]),
-                        'count': rng.choice([0, 16, 96])})
+            ops.append({'op': 'PR', 'cipher': c if rng.random() < 0.85 else rng.choice(sorted(REFUSED)), 'rcpt': rng.choice(rcpts + ['dsa2048']),
+                        'pw': 'pw', 'halg': rng.choice([2, 8, 10]), 'count': rng.choice([0, 16, 96])})
     return ops
 
 
@@ -409,6 +453,29 @@ def _run(ctx, d, pgpy):
         o = {'op': 'EP', 'cipher': c, 'pw': 'second', 'msg': 'm', 'sk': None, 'enc': True}
         Seq(ctx, d, pgpy, suite, state).run([o], keys)
         ctx.case(suite, c, sample=o)
+
+    # ---- 2a. refused operations: a supplied session key of the wrong length (29ef9ad: nothing may be drawn, the next operation takes
+    #          the very next cell), protect with a cipher PGPy cannot encrypt with (a3ce830: draws where they were, then the exception)
+    suite = 'refused'
+    for c in (CIPHERS if not ctx.quick else [7, 9, 2, 12]):
+        for kind in ['pass'] + rcpts[:2 if ctx.quick else len(rcpts)]:
+            for ln in sorted({KEYLEN[c] - 1, KEYLEN[c] + 1, 8, 40} - {KEYLEN[c]}):
+                bad = bytes(rng.randrange(256) for _ in range(ln)).hex()
+                good = bytes(rng.randrange(256) for _ in range(KEYLEN[c])).hex()
+                mk = (lambda sk_: {'op': 'EP', 'cipher': c, 'pw': 'the passphrase', 'msg': 'refused or not', 'sk': sk_, 'enc': False}) if kind == 'pass' else \
+                     (lambda sk_: {'op': 'EK', 'cipher': c, 'rcpt': kind, 'msg': 'refused or not', 'sk': sk_, 'enc': False})
+                Seq(ctx, d, pgpy, suite, state).run([mk(bad), mk(None), mk(bad), mk(good)], keys)
+                ctx.case(suite, (c, kind, ln), sample={'cipher': c, 'recipient': kind, 'supplied_key_octets': ln, 'key_octets': KEYLEN[c]})
+    for c in sorted(REFUSED):
+        for n in rcpts[:2]:
+            for how in (None, 'inprocess', 'loaded'):
+                o = {'op': 'PR', 'cipher': c, 'rcpt': n, 'pw': 'pw', 'halg': 8, 'count': 96}
+                if how:
+                    o.update(reprotect=how, oldcipher=9)
+                Seq(ctx, d, pgpy, suite, state).run([o, dict(o, cipher=9), dict(o)], keys)
+                ctx.case(suite, (c, 'protect', n, how), sample={'cipher': c, 'protect': n, 'already_protected': how})
+    ctx.exhaustive.append('refused: wrong-length supplied session keys (key size -1 / +1, 8, 40 octets) x {passphrase, recipients} x ciphers; '
+                          'protect with every cipher PGPy cannot encrypt with (Plaintext, IDEA, Twofish256) x {unprotected, protected in process, loaded}')
 
     # ---- 2b. re-protecting an already protected key (same or other cipher, in-process or loaded) must draw a fresh IV and salt
     suite = 'reprotect'
